@@ -30,6 +30,7 @@ def install(e):
     install_dispatcher_send(e)
     install_select(e)
     install_app_api(e)
+    install_app_init(e)
 
 
 # ===================================================================== C01: the convenience senders
@@ -363,3 +364,75 @@ def install_app_api(e):
     snd_contract("send", "data", ("bytes", "str"), None)
     snd_contract("send_text", "text_data", ("str",), 1)
     snd_contract("send_bytes", "data", ("bytes", "bytearray"), 2)
+
+
+# ===================================================================== C13 / C14: what a new WebSocketApp looks like; which dispatcher runs it
+def install_app_init(e):
+    import websocket._app as app_mod
+    import websocket._dispatcher as disp_mod
+    P = "websocket._app:"
+    CBS = ("on_open", "on_reconnect", "on_message", "on_data", "on_error", "on_close", "on_ping", "on_pong", "on_cont_message")
+
+    def ai_case(c):
+        app = c.alloc("obj", app_mod.WebSocketApp, {})
+        d = dict(self=app, url=c.fresh("str", "url"), cookie=c.fresh("str", "cookie"), get_mask_key=c.new_ext("keysource"), socket=c.new_ext("sock"))
+        for n in CBS:
+            # every subset of callbacks being set: each one is there or not, independently (decided lazily)
+            d[n] = c.fresh(("opt!", ("ext", "callback")), n)
+        return d
+
+    def ai_post(c, old, a, res):
+        app = a["self"]
+        has = all(c.hasf(app, f) for f in CBS + ("url", "cookie", "get_mask_key", "prepared_socket", "keep_running", "sock", "has_errored",
+                                                  "has_done_teardown", "ping_thread", "stop_ping", "last_ping_tm", "last_pong_tm"))
+        if not has:
+            return z3.BoolVal(False)
+        same = lambda x, y: _b(e.interp.same_value(c, x, y))
+        conds = [z3.BoolVal(c.getf(app, n) is a[n]) for n in CBS]  # each callback is stored under its own name
+        conds += [same(c.getf(app, "url"), a["url"]), same(c.getf(app, "cookie"), a["cookie"]), z3.BoolVal(c.getf(app, "get_mask_key") is a["get_mask_key"]),
+                  z3.BoolVal(c.getf(app, "prepared_socket") is a["socket"]),
+                  # a new application object is not running, has no connection, no ping thread and a clean record
+                  z3.BoolVal(c.getf(app, "keep_running") is False), z3.BoolVal(c.getf(app, "sock") is None),
+                  z3.BoolVal(c.getf(app, "has_errored") is False), z3.BoolVal(c.getf(app, "has_done_teardown") is False),
+                  z3.BoolVal(c.getf(app, "ping_thread") is None), z3.BoolVal(c.getf(app, "stop_ping") is None)]
+        return z3.And(*conds)
+    e.add(Contract(P + "WebSocketApp.__init__", cases=[("any", ai_case)], ensures=ai_post, inline_at_calls=True,
+                   modifies=lambda c, a: [a["self"]], props=("C13", "C14"),
+                   doc="every callback is stored under its own name (each subset of callbacks), url / cookie / key source / prepared socket as "
+                       "given; the new object is not running, has no connection, no ping thread and no error or teardown on record - the "
+                       "state run_forever's contract starts from"))
+
+    # ---- create_dispatcher(ping_timeout, dispatcher, is_ssl, handleDisconnect) -------------------------------------
+    def cd_case(ext, ssl_):
+        def case(c):
+            app = c.alloc("obj", app_mod.WebSocketApp, {})
+            return dict(self=app, ping_timeout=c.fresh(("opt", "real"), "ping_timeout"), dispatcher=c.new_ext("rel", abort=c.new_ext("callback")) if ext else None,
+                        is_ssl=ssl_, handleDisconnect=c.new_ext("callback"))
+        return case
+
+    def cd_post(c, old, a, res):
+        if not isinstance(res, Ref) or res.kind != "obj":
+            return z3.BoolVal(False)
+        cls = c.cell(res).cls
+        pt = a["ping_timeout"]
+        same = lambda x, y: _b(e.interp.same_value(c, x, y))
+        if a["dispatcher"] is not None:
+            # an external event loop is wrapped, with the run's own disconnect handler and the caller's ping timeout
+            return z3.And(z3.BoolVal(cls is disp_mod.WrappedDispatcher), z3.BoolVal(c.getf(res, "app") is a["self"]),
+                          z3.BoolVal(c.getf(res, "dispatcher") is a["dispatcher"]), z3.BoolVal(c.getf(res, "handleDisconnect") is a["handleDisconnect"]),
+                          same(c.getf(res, "ping_timeout"), pt))
+        want = disp_mod.SSLDispatcher if a["is_ssl"] else disp_mod.Dispatcher
+        got = c.getf(res, "ping_timeout")
+        ptv = z(unopt(pt), "real")
+        use_default = z3.Or(zn(pt), ptv == 0)
+        # the select loop wakes up at least every ping_timeout seconds (10 s when none is set): the period of the liveness check (C16)
+        period = z3.And(z3.Implies(use_default, z(got, "real") == 10) if isinstance(got, SV) else z3.BoolVal(False),
+                        z3.Implies(z3.Not(use_default), z(got, "real") == ptv) if isinstance(got, SV) else z3.BoolVal(False))
+        if not isinstance(got, SV):
+            period = z3.And(z3.Implies(use_default, _b(e.interp.same_value(c, got, 10))), z3.Implies(z3.Not(use_default), same(got, pt)))
+        return z3.And(z3.BoolVal(cls is want), z3.BoolVal(c.getf(res, "app") is a["self"]), period)
+    e.add(Contract(P + "WebSocketApp.create_dispatcher",
+                   cases=[(f"{'external' if x else 'builtin'},{'tls' if t else 'plain'}", cd_case(x, t)) for x in (False, True) for t in (False, True)],
+                   ensures=cd_post, inline_at_calls=True, props=("C13", "C16"),
+                   doc="an external dispatcher is wrapped (with the run's disconnect handler); otherwise SSLDispatcher exactly for a TLS connection, "
+                       "Dispatcher for a plain one, waking up every ping_timeout seconds (10 when none is set)"))
